@@ -1,14 +1,15 @@
 import RxModel.Csv
 import RxModel.Lemmas.Framing
+import RxModel.Lemmas.CsvMerge
 /-!
 # C18 — CSV dump/load round-trips typed rows
 
 Proved: string escaping is inverted by the two sequential `replace` calls of the parser for EVERY
-string (`C18_unescape`), quoting/unquoting, decimal printing/parsing of ints, and the row round
-trip for a one-character separator when no string field contains the separator.
-Not proved (decided by the correspondence check and the real round-trip oracle): the re-joining
-heuristics of `merge_escape_parts` for fields containing the separator, multi-character separators,
-`float(str(x)) == x` (library contract).
+string (`C18_unescape`), quoting/unquoting, decimal printing/parsing of ints, and the WHOLE-ROW
+round trip for a one-character separator (`C18_row`): split, `merge_escape_parts` (strings that
+contain the separator, quotes and escape characters anywhere), unquote, typed parsers.
+Not proved (decided by the correspondence check and the real round-trip oracle): multi-character
+separators, `float(str(x)) == x` (library contract).
 -/
 namespace Rx
 
@@ -192,7 +193,188 @@ theorem C18_int (i : Int) : readInt (showInt i) = some i := by
 theorem C18_bool (esc : Char) (b : Bool) : parseField .bool (dumpField esc (.bool b)) = .ok (.bool b) := by
   cases b <;> simp [parseField, dumpField] <;> decide
 
+/-! ### whole rows, one-character separator -/
+
+theorem digit_ne_quote : ∀ m, m < 10 → Char.ofNat (48 + m) ≠ '"' := by decide
+
+theorem showNat_no_quote (n : Nat) : '"' ∉ showNat n := by
+  unfold showNat
+  have key : ∀ (f n : Nat), n < f → ∀ c ∈ digitsRev f n, c ≠ '"' := by
+    intro f
+    induction f with
+    | zero => intro n h; omega
+    | succ f ih =>
+      intro n h c hc
+      simp only [digitsRev] at hc
+      by_cases h10 : n < 10
+      · simp only [h10, if_true, List.mem_singleton] at hc
+        subst hc
+        exact digit_ne_quote n h10
+      · simp only [h10, if_false, List.mem_cons] at hc
+        rcases hc with rfl | hc
+        · exact digit_ne_quote (n % 10) (Nat.mod_lt _ (by decide))
+        · exact ih (n / 10) (by omega) c hc
+  intro hmem
+  exact key (n + 1) n (by omega) '"' (by simpa using hmem) rfl
+
+theorem showNat_ne_nil (n : Nat) : showNat n ≠ [] := by
+  unfold showNat
+  have := (readNat_digits (n + 1) n (by omega)).2
+  simpa using this
+
+theorem showInt_no_quote (i : Int) : '"' ∉ showInt i := by
+  unfold showInt
+  split
+  · intro h
+    rcases List.mem_cons.mp h with h | h
+    · exact absurd h (by decide)
+    · exact showNat_no_quote _ h
+  · exact showNat_no_quote _
+
+theorem showInt_ne_nil (i : Int) : showInt i ≠ [] := by
+  unfold showInt
+  split
+  · simp
+  · exact showNat_ne_nil _
+
+/-- a field together with the type of its column, as `dump` can write it with separator `c`: the
+separator does not occur in the tokens of numbers and booleans (strings may contain anything) -/
+def FieldOK (c esc : Char) : CsvField × CsvType → Prop
+  | (.int i, .int) => c ∉ showInt i
+  | (.float t, .float) => t ≠ [] ∧ c ∉ t ∧ '"' ∉ t
+  | (.bool b, .bool) => c ∉ dumpField esc (.bool b)
+  | (.str _, .str) => True
+  | _ => False
+
+theorem head_ne_of_not_mem {t : Str} {q : Char} (h : q ∉ t) : t.head? ≠ some q := by
+  intro hh; exact h (List.mem_of_mem_head? hh)
+
+theorem tokOK_dump (c esc : Char) (hq : esc ≠ '"') (p : CsvField × CsvType) (h : FieldOK c esc p) :
+    TokOK c esc (dumpField esc p.1) := by
+  obtain ⟨f, ty⟩ := p
+  cases f <;> cases ty <;> simp only [FieldOK] at h
+  · exact Or.inl ⟨h, head_ne_of_not_mem (showInt_no_quote _)⟩
+  · exact Or.inl ⟨h.2.1, head_ne_of_not_mem h.2.2⟩
+  · rename_i b
+    refine Or.inl ⟨h, ?_⟩
+    cases b <;> simp [dumpField] <;> decide
+  · rename_i s
+    exact Or.inr ⟨escapeStr esc s, escS_escapeStr esc hq s, by simp [dumpField]⟩
+
+theorem unquote_plain (esc : Char) (t : Str) (h : t.head? ≠ some '"') : unquote esc t = t := by
+  unfold unquote
+  simp [h]
+
+/-- one field: dumped, unquoted and parsed with the type of its column, it is returned equal -/
+theorem field_roundtrip (c esc : Char) (hq : esc ≠ '"') (p : CsvField × CsvType) (h : FieldOK c esc p) :
+    parseField p.2 (unquote esc (dumpField esc p.1)) = .ok p.1 := by
+  obtain ⟨f, ty⟩ := p
+  cases f <;> cases ty <;> simp only [FieldOK] at h
+  · rename_i i
+    simp only [dumpField]
+    rw [unquote_plain esc _ (head_ne_of_not_mem (showInt_no_quote i))]
+    simp [parseField, showInt_ne_nil, C18_int]
+  · rename_i t
+    simp only [dumpField]
+    rw [unquote_plain esc _ (head_ne_of_not_mem h.2.2)]
+    simp [parseField, h.1]
+  · rename_i b
+    have hb : (dumpField esc (.bool b)).head? ≠ some '"' := by cases b <;> simp [dumpField] <;> decide
+    rw [unquote_plain esc _ hb]
+    exact C18_bool esc b
+  · rename_i s
+    rw [C18_str_field esc hq s]
+    rfl
+
+theorem flat_len_ge (c : Char) : ∀ toks : List Str, toks.length ≤ (toks.flatMap (splitC c)).length := by
+  intro toks
+  induction toks with
+  | nil => simp
+  | cons t toks ih =>
+    have : 1 ≤ (splitC c t).length := by
+      cases h : splitC c t with
+      | nil => exact absurd h (splitC_ne_nil c t)
+      | cons p ps => simp
+    simp only [List.flatMap_cons, List.length_append, List.length_cons]
+    omega
+
+/-- if splitting produced exactly as many pieces as there are fields, no field contained the separator -/
+theorem flat_len_eq (c : Char) : ∀ toks : List Str, (toks.flatMap (splitC c)).length = toks.length →
+    toks.flatMap (splitC c) = toks := by
+  intro toks
+  induction toks with
+  | nil => intro _; rfl
+  | cons t toks ih =>
+    intro h
+    have hge := flat_len_ge c toks
+    simp only [List.flatMap_cons, List.length_append, List.length_cons] at h
+    cases hs : splitC c t with
+    | nil => exact absurd hs (splitC_ne_nil c t)
+    | cons p ps =>
+      rw [hs] at h
+      simp only [List.length_cons] at h
+      have hps : ps = [] := List.eq_nil_of_length_eq_zero (by omega)
+      subst hps
+      have hj := join_split c t
+      rw [hs] at hj
+      simp only [joinWith] at hj
+      subst hj
+      simp only [List.flatMap_cons, hs, List.singleton_append]
+      rw [ih (by omega)]
+
+theorem mapM_fields (c esc : Char) (hq : esc ≠ '"') : ∀ (row : List (CsvField × CsvType)), (∀ p ∈ row, FieldOK c esc p) →
+    ((row.map (fun p => dumpField esc p.1)).zip (row.map (·.2))).mapM
+        (fun p => parseField p.2 (unquote esc p.1)) = .ok (row.map (·.1)) := by
+  intro row
+  induction row with
+  | nil => intro _; rfl
+  | cons p row ih =>
+    intro h
+    have h1 := field_roundtrip c esc hq p (h p (by simp))
+    have h2 := ih (fun x hx => h x (by simp [hx]))
+    simp only [List.map_cons, List.zip_cons_cons, List.mapM_cons, h1, h2]
+    rfl
+
+/-- **C18, whole rows.**  A row of typed fields (ints, floats, booleans, strings containing anything:
+separators, quotes, escape characters, blanks) written by `dump` with a one-character separator and
+read back by the parser with the matching schema is returned equal, field by field and in order —
+through `split`, `merge_escape_parts`, unquoting, unescaping and the typed parsers, as the code
+composes them. -/
+theorem C18_row (c esc : Char) (hce : c ≠ esc) (hcq : c ≠ '"') (hq : esc ≠ '"')
+    (row : List (CsvField × CsvType)) (hne : row ≠ []) (hok : ∀ p ∈ row, FieldOK c esc p) :
+    parseLine [c] esc (row.map (·.2)) (joinWith [c] (row.map (fun p => dumpField esc p.1))) =
+      .ok (row.map (·.1)) := by
+  have htok : ∀ t ∈ row.map (fun p => dumpField esc p.1), TokOK c esc t := by
+    intro t ht
+    obtain ⟨p, hp, rfl⟩ := List.mem_map.mp ht
+    exact tokOK_dump c esc hq p (hok p hp)
+  have hne' : row.map (fun p => dumpField esc p.1) ≠ [] := by simpa using hne
+  have hsplit := split_join_flat c _ hne'
+  have hparts : (if ¬ ((row.map (fun p => dumpField esc p.1)).flatMap (splitC c)).length = row.length
+        then mergeParts [c] esc none ((row.map (fun p => dumpField esc p.1)).flatMap (splitC c))
+        else (row.map (fun p => dumpField esc p.1)).flatMap (splitC c)) = row.map (fun p => dumpField esc p.1) := by
+    split
+    · exact merge_all c esc hce hcq hq _ htok
+    · rename_i hlen
+      apply flat_len_eq
+      simp only [List.length_map]
+      exact Decidable.not_not.mp hlen
+  unfold parseLine
+  simp only [pySplit, hsplit, List.length_map, ne_eq]
+  rw [hparts]
+  simp only [List.length_map, not_true_eq_false, if_false]
+  exact mapM_fields c esc hq row hok
+
 /-! non-vacuity -/
+example : ∀ p ∈ [((CsvField.int (-5)), CsvType.int), (.str "a,\"b\\".toList, .str), (.bool true, .bool), (.str [], .str)],
+    FieldOK ',' '\\' p := by
+  intro p hp
+  simp only [List.mem_cons, List.mem_nil_iff, or_false] at hp
+  rcases hp with rfl | rfl | rfl | rfl
+  · show ',' ∉ showInt (-5); decide
+  · trivial
+  · show ',' ∉ dumpField '\\' (.bool true); decide
+  · trivial
 example : escapeStr '\\' "x\\\",".toList = "x\\\\\\\",".toList := by decide
 example : (match parseLine ",".toList '\\' [.str, .str] "\"x\\\\\",\"a,b\"".toList with | .ok r => r | .error _ => []) =
     [.str "x\\".toList, .str "a,b".toList] := by decide
